@@ -62,6 +62,8 @@ struct FnDir {
     /// E18: `_ = map.entry(k).or_insert_with(|| body)` is replaced by its std definition
     inline_entry: bool,
     substs: Vec<(String, String)>,
+    /// `@@subst? A => B`: as `@@subst`, but no error when `A` does not occur
+    substs_opt: Vec<(String, String)>,
     spec: String,
     closures: HashMap<usize, String>,
     /// `@@closure ~text`: header for the innermost closure whose source text contains `text`
@@ -285,6 +287,7 @@ fn parse_template(path: &Path, nodes: &mut Vec<Node>) {
                         "to" => d.to = Some(rest),
                         "block" => d.block = Some(rest),
                         "subst" => d.substs.push(parse_subst(&rest, &sctx)),
+                        "subst?" => d.substs_opt.push(parse_subst(&rest, &sctx)),
                         "macro" => d.macros.push(parse_subst(&rest, &sctx)),
                         "spec" => d.spec = multiline(&mut i),
                         "pre" => d.pre = multiline(&mut i),
@@ -1982,6 +1985,12 @@ fn main() {
                     }
                     text = text.replace(a.as_str(), b);
                     *counts.entry("subst-declared".into()).or_insert(0) += 1;
+                }
+                for (a, b) in &d.substs_opt {
+                    if text.contains(a.as_str()) {
+                        text = text.replace(a.as_str(), b);
+                        *counts.entry("subst-declared".into()).or_insert(0) += 1;
+                    }
                 }
                 let text = squeeze_blank_lines(&text);
                 let l0 = cur_line(&output);
